@@ -213,3 +213,48 @@ def guard_atoms(prog: Program, fi: FuncInfo, node: Node) -> list[tuple[ast.AST, 
         for a, truth in must_atoms([(b, lab)]):
             out.append((a, truth, b))
     return out
+
+
+def factory_closure(prog: Program, fac: FuncInfo) -> FuncInfo:
+    """The nested function a wrapper factory hands out: its only local def, or - when it has local helpers too - the one
+    that its return values are built from."""
+    from ..decide import expand_expr
+    from ..loader import AnalysisError
+
+    inner = [f for f in fac.local_defs.values() if isinstance(f, FuncInfo) and not isinstance(f.node, ast.Lambda)]
+    if len(inner) == 1:
+        return inner[0]
+    if not inner:
+        raise AnalysisError(f"{fac.qual} defines no inner function")
+    flow = prog.flow(fac)
+    names: set[str] = set()
+    for r in flow.cfg.returns():
+        if r.ast.value is not None:
+            ex = expand_expr(prog, fac, r.ast.value, r, strict=False)
+            names |= {x.id for x in ast.walk(ex) if isinstance(x, ast.Name)}
+    hit = [f for f in inner if f.name in names]
+    if len(hit) != 1:
+        raise AnalysisError(f"{fac.qual}: cannot tell which of its inner functions {sorted(f.name for f in inner)} is the one it returns")
+    return hit[0]
+
+
+def deep_origins(prog: Program, fi: FuncInfo, expr: ast.AST | None, node: Node, stop: set[str] | None = None, depth: int = 0) -> frozenset:
+    """origins(), with calls to functions of the package (other than those in `stop`) replaced by the origins of what they
+    return: `return helper(x)` where helper ends in `return fix(y)` has origin ("call", fix)."""
+    stop = stop or set()
+    out: set = set()
+    for o in origins(prog, fi, expr, node):
+        if isinstance(o, tuple) and o[0] == "call" and o[1] not in stop and depth < 3 and o[1] in prog.repo.functions:
+            callee = prog.repo.functions[o[1]]
+            if isinstance(callee.node, ast.Lambda):
+                out.add(o)
+                continue
+            rets = [r for r in prog.flow(callee).cfg.returns() if r.ast.value is not None]
+            if not rets:
+                out.add(o)
+                continue
+            for r in rets:
+                out |= deep_origins(prog, callee, r.ast.value, r, stop, depth + 1)
+        else:
+            out.add(o)
+    return frozenset(out)
